@@ -253,6 +253,24 @@ def cubic_reversed_does_not_leak_a_stale_length(c):
     c.ensures('the-reversed-copy-still-answers-for-the-old-control-points', ops.eq(c.callm(rev, 'length', error=e), fresh(P[::-1], True, e, 5)))
 
 
+@contract('C16', 'path.CubicBezier.reversed', params=[{'_no_bounded': True}], covers=('path.CubicBezier.length',))
+def cubic_reversed_after_a_reassignment_answers_like_a_fresh_segment(c):
+    """history: length() fills the cache, a control point is reassigned, THEN the copy is made"""
+    P, seg = mkseg(c, 4)
+    c.set_global('path._quad_available', True)
+    fresh = _fresh_length_model(c)
+    e = c.real('error')
+    c.callm(seg, 'length', error=e)
+    Q3 = c.cplx('Q3')
+    c.set(seg, 'end', Q3)
+    P2 = [P[0], P[1], P[2], Q3]
+    rev = c.callm(seg, 'reversed')
+    # arc length does not depend on orientation (assumed of the quadrature value)
+    c.fact(ops.eq(fresh(P2[::-1], True, e, 5), fresh(P2, True, e, 5)))
+    c.ensures('the-reversed-copy-answers-for-the-current-control-points', ops.eq(c.callm(rev, 'length', error=e), fresh(P2[::-1], True, e, 5)))
+    c.ensures('and-so-does-the-original', ops.eq(c.callm(seg, 'length', error=e), fresh(P2, True, e, 5)))
+
+
 for _n in (2, 3, 4):
     def _mk(n):
         def eq_implies_equal_hash(c):
